@@ -522,6 +522,9 @@ void mmd_export_toc_entry_html(DString * out, const char * source, scratch_pad *
 					printf("<li><a href=\"#%s\">", temp_char);
 				}
 
+				// (Same clean up as the header itself gets when it is exported --
+				// otherwise the line ending of a Setext header ends up in the entry)
+				header_clean_trailing_whitespace(entry->child, source);
 				mmd_export_token_tree_html(out, source, entry->child, scratch);
 				trim_trailing_whitespace_d_string(out);
 
